@@ -483,7 +483,21 @@ pub fn o_intr(c: &Ctx, t: &Trace, out: &mut Vec<Violation>) {
     let Some(sig_pos) = sig_pos else { return };
     let before_first_poll = !t.log[..sig_pos].iter().any(|e| matches!(e, Ev::Poll | Ev::Spurious));
     let bound = intr_bound(rs, before_first_poll).unwrap();
-    let after = t.log[sig_pos..].iter().filter(|e| hand(e).is_some()).count();
+    // A signal sent from inside a user future of a *concurrent* call can arrive while functions
+    // that were dequeued before it have not had their closure invoked yet (FuturesUnordered may
+    // yield before first-polling a freshly pushed future). "Started" provably equals "handed
+    // out" only at quiescent points, so for that injection mode the bound is asserted on the
+    // hand-outs after the first quiescent point that follows the signal.
+    let inside_concurrent = rs.api.is_concurrent_call() && matches!(rs.signal, SignalPlan::AtStart(_) | SignalPlan::AtEnd(_));
+    let count_from = if inside_concurrent {
+        match t.log[sig_pos..].iter().position(|e| *e == Ev::Quiescent) {
+            Some(q) => sig_pos + q,
+            None => t.log.len(),
+        }
+    } else {
+        sig_pos
+    };
+    let after = t.log[count_from..].iter().filter(|e| hand(e).is_some()).count();
     if after > bound {
         out.push(v(
             "C08",
